@@ -21,17 +21,24 @@ func TestMain(m *testing.M) { vlib.Main(m) }
 type Case struct {
 	Hist   *vlib.HistCase `json:"hist"`
 	Subset []bool         `json:"subset"` // per owner slot: re-submit if live
+	// Cancelled: a transaction that is applied and then cancelled before the re-submission (nil = none)
+	Cancelled *vlib.Step `json:"cancelled,omitempty"`
 }
 
 var prop = vlib.Prop[*Case]{
 	ID: "C09",
 	Rule: "case = reachable state (history of 1..8 transactions as in C01, over the plain universe or the choice universe) + a subset of the live intents re-submitted verbatim (same name, priority, content, input form) in one transaction; " +
 		"oracle = the recording device asks the same tree for every encoding: proto updates/deletes empty, JSON and JSON_IETF equal {}, XML empty for all 8 option combinations, response Update/Delete empty, INTENDED and CONFIG dumps identical before/after; " +
-		"precondition (else discarded and counted): the running mirror equals the model merge on every path of the re-applied intents; " +
+		"a quarter of the states are reached through a transaction that was applied and cancelled; precondition (else discarded and counted): the device holds the model merge on every path of the re-applied intents (a running mirror that disagrees with the device is data-server's own doing and no excuse); " +
 		"non-trivial = the re-submitted subset contains a fully shadowed or a partly shadowed (mixed) intent; distinct = distinct case JSON",
 	Gen: func(t *rapid.T) *Case {
 		uni := rapid.SampledFrom([]*vlib.Universe{vlib.UniPlainNA, vlib.UniPlainNA, vlib.UniChoiceNoList}).Draw(t, "universe")
-		c := &Case{Hist: vlib.GenHistCase(t, vlib.HistGenOpts{Universe: uni, MinSteps: 1, MaxSteps: 8, WithInit: true, AllowOrphan: true})}
+		o := vlib.HistGenOpts{Universe: uni, MinSteps: 1, MaxSteps: 8, WithInit: true, AllowOrphan: true}
+		c := &Case{Hist: vlib.GenHistCase(t, o)}
+		if rapid.IntRange(0, 3).Draw(t, "cancelled-transaction") == 0 {
+			st := vlib.GenStep(t, o)
+			c.Cancelled = &st
+		}
 		for i := 0; i < vlib.NumOwners; i++ {
 			c.Subset = append(c.Subset, rapid.IntRange(0, 2).Draw(t, "resubmit") != 0)
 		}
@@ -56,6 +63,19 @@ func Exec(c *Case) (nontrivial bool, labels []string, fail *vlib.Failure) {
 			return false, []string{"discard"}, nil
 		}
 	}
+	lab := map[string]bool{}
+	if c.Cancelled != nil {
+		// a transaction that is rolled back belongs to the history of a reachable state as well
+		if res := h.SubmitStep(*c.Cancelled); res.OK {
+			if err := h.DS.TransactionCancel(ctx, res.TxID); err != nil {
+				st.Discard("cancel-refused")
+				return false, []string{"discard"}, nil
+			}
+			lab["after-cancelled-transaction"] = true
+		} else {
+			h.FreeSlot(res.TxID)
+		}
+	}
 	// subset of live intents
 	var names []string
 	for i, on := range c.Subset {
@@ -75,18 +95,18 @@ func Exec(c *Case) (nontrivial bool, labels []string, fail *vlib.Failure) {
 		fmt.Fprintf(os.Stderr, "HARNESS-ERROR %v\n", err)
 		os.Exit(2)
 	}
-	running := cfgDump.Conf()
-	lab := map[string]bool{}
+	device := vlib.NormPresence(h.Dev.Snapshot())
 	var reqs []*sdcpb.TransactionIntent
 	for _, n := range names {
 		it := h.Model.Intents[n]
 		ruling, shadowed := 0, 0
 		for p := range it.Leaves {
-			if running[p] != merge[p] {
+			if device[p] != merge[p] {
+				// the device itself does not hold the winner (a defect C01 / C05 report): re-sending is legitimate
 				if vlib.MustCanon(p).IsKeyLeaf() {
 					continue
 				}
-				st.Discard("drifted-running")
+				st.Discard("drifted-device")
 				return false, []string{"discard"}, nil
 			}
 			if h.Model.Definers(p)[0].Name == n {
